@@ -87,14 +87,14 @@ def tlc_case(nfeat, ppos, dd, nl, prots):
             "text": to_text(lines, nl)}
 
 
-def random_case(rng, max_rows=30, max_feat=12, max_prot=6):
+def random_case(rng, max_rows=30, max_feat=12, max_prot=6, nrows=None):
     nfeat = int(rng.integers(0, max_feat + 1))
     ncol = nfeat + 5
     r = rng.random()
     ppos = ncol if r < 0.3 else 1 if r < 0.4 else int(rng.integers(1, ncol + 1))
     dd = ["none", "short", "full"][int(rng.integers(0, 3))]
     nl = bool(rng.integers(0, 2))
-    nrows = int(rng.integers(1, max_rows + 1))
+    nrows = int(rng.integers(1, max_rows + 1)) if nrows is None else int(nrows)
     style = int(rng.integers(0, 4))
     if style == 0:          # already rectangular
         prots = [1] * nrows
@@ -352,6 +352,9 @@ def run(ctx):
     n_tlc = len(cases)
     for _ in range(400 if ctx.quick else 6000):
         cases.append(random_case(rng))
+    # long files (anything that buffers or batches lines shows only beyond its batch size)
+    for nrows in ([999, 1000, 1001, 1002, 2001] if ctx.quick else [999, 1000, 1001, 1002, 1003, 2000, 2001, 2002, 4100, 8200]):
+        cases.append(random_case(rng, max_feat=3, max_prot=3, nrows=nrows))
     cases.extend(ood_cases())
     cases.extend(valid_cases("PinValid_gen.cfg" if ctx.quick else "PinValid_gen4.cfg"))
     # the protein separator is a parameter of the API (the CLI uses ":"): rotate it over the cases
